@@ -84,6 +84,7 @@ type FakeNet struct {
 	hits      map[string]int       // proxied requests that reached host (excluding probes)
 	probes    map[string]int       // probe requests that reached host
 	order     []string             // hosts in arrival order (proxied only)
+	orderB    []Behaviour          // the behaviour each of those arrivals met
 	parked    map[string][]chan Behaviour
 	probeFn   func(host string) Behaviour
 	probeB    map[string]Behaviour // explicit probe behaviour by host (overrides behave for probes)
@@ -234,6 +235,21 @@ func (f *FakeNet) Arrivals() int { f.mu.Lock(); defer f.mu.Unlock(); return len(
 // HostAt returns the host of the i-th proxied arrival.
 func (f *FakeNet) HostAt(i int) string { f.mu.Lock(); defer f.mu.Unlock(); return f.order[i] }
 
+// BehaviourAt returns what the i-th proxied request met at its backend (the scripted ground truth,
+// independent of what Helios made of it).
+func (f *FakeNet) BehaviourAt(i int) Behaviour { f.mu.Lock(); defer f.mu.Unlock(); return f.orderB[i] }
+
+// FailedAt says whether the i-th proxied request is a failed one by the backend's own doing: a 5xx
+// answer (with or without an interim response first), an unreachable backend, or a response aborted
+// mid-body.
+func (f *FakeNet) FailedAt(i int) bool {
+	switch f.BehaviourAt(i) {
+	case Status5xx, Unreachable, AbortBody, Interim5xx:
+		return true
+	}
+	return false
+}
+
 // ParkedAt returns how many requests are parked in host.
 func (f *FakeNet) ParkedAt(host string) int {
 	f.mu.Lock()
@@ -365,6 +381,7 @@ func (f *FakeNet) roundTrip(req *http.Request, isProbe bool) (*http.Response, er
 	} else {
 		f.hits[host]++
 		f.order = append(f.order, host)
+		f.orderB = append(f.orderB, b)
 	}
 	var ch chan Behaviour
 	if b == Park || b == ParkHead || b == ParkMidBody {
